@@ -129,6 +129,17 @@ def check_state(job):
             HH, _ = linop_build.dense(A.H.H, check_i=False)
             if HH is None or not np.allclose(HH, F, atol=1e-12 * max(1.0, np.abs(F).max())):
                 out.append((["C01"], "adjoint_involution", "Interpolate.H.H does not act like the original"))
+            # the adjoint-type class built directly with the same (non-default) kernel / width / param, and its own adjoint
+            try:
+                B = sp.linop.Gridding(grid, coord, kernel=kern, width=tuple(widths), param=tuple([par] * nd))
+                Bm, _ = linop_build.dense(B, check_i=False)
+                BH, _ = linop_build.dense(B.H, check_i=False)
+                if Bm is None or not np.allclose(Bm, F.conj().T, atol=1e-12 * max(1.0, np.abs(F).max()), rtol=0):
+                    out.append((["C01"], "adjoint_matrix", "Gridding(...) built directly is not the conjugate transpose of Interpolate(...) with the same arguments"))
+                if BH is None or not np.allclose(BH, F, atol=1e-12 * max(1.0, np.abs(F).max()), rtol=0):
+                    out.append((["C01"], "adjoint_matrix", "Gridding(...).H does not act like Interpolate(...) with the same arguments"))
+            except Exception as e:
+                out.append((["C01"], "exception", "Gridding linop raised %r" % (e,)))
             for kind, dd in d1 + d2:
                 out.append((["C02"], kind, dd))
     return st["cfg"], out
